@@ -28,7 +28,7 @@ META = dict(
     property="C19",
     level="exploration",
     technique="grammar-based generation of framing-biased request streams + complete byte sweeps (every byte value in method/target/version/header name/header value/chunk-size/chunk-ext) against a reference parser written from RFC 9112 and, on strictly well-formed streams, h11; every stream is delivered in one piece and again under generated segmentations (same reference verdict required)",
-    level_text="One-piece delivery of generated streams (1-3 pipelined requests; CL/TE combinations, duplicate and list-valued CL, signs/whitespace/non-ASCII digits/huge digit strings, TE token lists and case, obs-fold, bare CR/LF/NUL/CTL in values, invalid names, request-line separators and versions, chunk-size forms, extensions incl. quoted strings and BWS, LF-only terminators, missing chunk CRLF, trailers, smuggled requests inside bodies, truncation) to the real HTTPFactory/HTTPChannel with a recording http.Request subclass as the application. Delivered requests (method, target, version, header multimap, body), 400 + close, and 'nothing processed after the error' must conform to the reference parser; every recipient choice RFC 9112/9110 allows is accepted. Streams that are strictly well-formed are also parsed by h11 and must give equal requests. Each stream is then re-delivered under 2-3 generated segmentations (cuts inside chunk-size lines, between CR and LF, at piece boundaries, random; byte-wise when <= 250 bytes; every single cut for four canonical well-formed chunked streams) and must conform to the same reference steps, since the body RFC 9112 assigns does not depend on how the bytes arrive; delivery stops once the server asked to close. Byte sweeps are complete over the 256 byte values at 13 syntactic positions; the rest is sampled.",
+    level_text="One-piece delivery of generated streams (1-3 pipelined requests; CL/TE combinations, duplicate and list-valued CL, signs/whitespace/non-ASCII digits/huge digit strings, TE token lists and case, obs-fold, bare CR/LF/NUL/CTL in values, invalid names, request-line separators and versions, chunk-size forms, extensions incl. quoted strings and BWS, LF-only terminators, missing chunk CRLF, trailers, smuggled requests inside bodies, truncation) to the real HTTPFactory/HTTPChannel with a recording http.Request subclass as the application. Delivered requests (method, target, version, header multimap, body), 400 + close, and 'nothing processed after the error' must conform to the reference parser; every recipient choice RFC 9112/9110 allows is accepted. Streams that are strictly well-formed are also parsed by h11 and must give equal requests. Each stream is then re-delivered under 2-3 generated segmentations (cuts inside chunk-size lines, between CR and LF, at piece boundaries, random; byte-wise when <= 250 bytes; every single cut for four canonical well-formed chunked streams) and must conform to the same reference steps, since the body RFC 9112 assigns does not depend on how the bytes arrive; delivery stops once the server asked to close. Three answer schedules are generated (the application answers inside process(), after the delivery that completed the request, or only after the whole input), so that pipelined requests - including ones that must be rejected - also travel through the channel's pipelining buffer in several entries; 'nothing after the 400 is processed' is asserted for all of them. Byte sweeps are complete over the 256 byte values at 13 syntactic positions; the rest is sampled.",
     level_note="Reference parser (ref_parse) is the trusted base; h11 0.16 second opinion. 'Unsupported transfer coding' is everything except a single 'chunked' (what twisted implements). Repeated Content-Length is required to be rejected even when the values agree, as the statement says (RFC 9110 §8.6 would also allow accepting them). Missing/duplicate Host, limits (header count/size, line length) and Connection semantics are outside this check; equality of written bytes across segmentations is C18 (here only conformance to the reference is required of segmented runs).",
     design_ref="§5 C19",
     rule="case = list of labelled byte pieces (labels are for readability only; the oracle works on the concatenated bytes). non-trivial = the stream contains a framing conflict/invalid framing element (reference step 'error' or a may-reject reason about CL/TE/chunks) or >= 2 requests of which the first has a body; distinct by stream bytes; plus (stream, cuts) for segmented deliveries of such streams or of chunked streams whose cuts fall inside a chunk-size line, a CRLF or a CRLFCRLF.",
@@ -410,9 +410,14 @@ class HarnessBug(Exception):
     pass
 
 
-def serve(segments):
+def serve(segments, mode="sync"):
     """Feed the segments to a fresh connection (a bytes argument is one segment);
-    delivery stops once the server has asked the transport to close."""
+    delivery stops once the server has asked the transport to close.
+
+    mode: when the application answers -- "sync" inside process(), "after" once
+    the delivery that completed the request has returned, "end" only after the
+    whole input was delivered (everything behind a pending request sits in the
+    channel's pipelining buffer, one entry per delivery, and is replayed later)."""
     if isinstance(segments, bytes):
         segments = [segments] if segments else []
     from twisted.internet.task import Clock
@@ -423,6 +428,13 @@ def serve(segments):
     seen = []
     errors = []
     marks = []
+    pending = []
+
+    def answer(request, n):
+        body = b"ok %d\n" % n
+        request.setHeader(b"content-length", b"%d" % len(body))
+        request.write(body)
+        request.finish()
 
     class Recorder(http.Request):
         """The application: twisted.web.http hands a request over by calling process()."""
@@ -436,10 +448,10 @@ def serve(segments):
             except Exception as e:
                 errors.append(e)
                 raise
-            body = b"ok %d\n" % len(seen)
-            self.setHeader(b"content-length", b"%d" % len(body))
-            self.write(body)
-            self.finish()
+            if mode == "sync":
+                answer(self, len(seen))
+            else:
+                pending.append((self, len(seen)))
 
     clock = Clock()
     site = http.HTTPFactory(reactor=clock)
@@ -454,6 +466,11 @@ def serve(segments):
             if tr.disconnecting:
                 break
             proto.dataReceived(seg)
+            if mode == "after":
+                while pending:
+                    answer(*pending.pop(0))
+        while pending:
+            answer(*pending.pop(0))
     finally:
         if errors:
             raise HarnessBug(repr(errors[0]))
@@ -651,11 +668,13 @@ def run_case(ctx, case):
     alts = [steps]
     if re.search(rb"(?<!\r)\n", data):
         alts.append(ref_parse(data, lf=True))
-    obs = serve(data)
+    mode = case.get("mode", "sync")
+    obs = serve(data, mode)
     results = [conforms(s, obs) for s in alts]
     ok = [r for r in results if r[0] is None]
     if not ok:
         (sig, detail), _ = results[0]
+        sig = _late_prefix(alts, [data] if data else [], mode) + sig
         ctx.violation(sig, case, "stream=%r\n %s\n reference steps=%r\n observed: %d requests, got400=%r closed=%r"
                       % (data[:500], detail, [_brief_step(s) for s in steps][:6], len(obs["requests"]), obs["got400"], obs["closed"]))
     choices = ok[0][1]
@@ -686,6 +705,7 @@ def run_case(ctx, case):
             ctx.count("h11 agreed")
     # bookkeeping
     ctx.count("streams")
+    ctx.count("schedule: " + mode)
     term = steps[-1]
     ctx.count("reference: ends with " + term[0] + (":" + term[1] if term[0] == "error" else ""))
     for m, what in choices:
@@ -713,23 +733,36 @@ def run_case(ctx, case):
         if not cuts:
             continue
         segs = split_at(data, cuts)
-        sobs = serve(segs)
+        sobs = serve(segs, mode)
         sres = [conforms(a, sobs) for a in alts]
         classes = _cut_classes(case, data, cuts) if spec != "bytewise" else ["bytewise"]
         ctx.count("seg deliveries")
+        if mode != "sync":
+            ctx.count("seg deliveries with late answers (%s)" % mode)
+            if nreq >= 1 and term[0] == "error" and len(segs) > 1:
+                ctx.count("late: a request that must be rejected sits behind a pending one, in several segments")
         for c in classes:
             ctx.count("seg: " + c)
         if not any(r[0] is None for r in sres):
             (sig, detail), _ = sres[0]
             where = classes[0] if classes else "other-cut"
-            ctx.violation("segmented:%s:%s" % (sig, where), dict(pieces=case["pieces"], cuts=[spec]),
+            late = _late_prefix(alts, segs, mode)
+            ctx.violation(late + "segmented:%s:%s" % (sig, where), dict(pieces=case["pieces"], cuts=[spec], mode=mode),
                           "stream=%r cuts=%r\n one piece conforms; segmented delivery does not: %s\n observed: %d requests, got400=%r closed=%r"
                           % (data[:500], cuts[:12], detail, len(sobs["requests"]), sobs["got400"], sobs["closed"]))
         if sobs["n200"] != len(sobs["requests"]):
-            ctx.violation("segmented:responses-vs-requests", dict(pieces=case["pieces"], cuts=[spec]),
+            ctx.violation("segmented:responses-vs-requests", dict(pieces=case["pieces"], cuts=[spec], mode=mode),
                           "delivered %d requests, wrote %d 200 responses" % (len(sobs["requests"]), sobs["n200"]))
         if classes and classes[0] != "other-cut" and (framing_issue or piped or any(k in ("chunksize", "lastchunk") for k, _ in case["pieces"])):
             ctx.nontrivial((data, tuple(cuts)))
+
+
+def _late_prefix(alts, segs, mode):
+    """'late-response:' when the same delivery conforms if the application answers synchronously."""
+    if mode == "sync":
+        return ""
+    o = serve(segs, "sync")
+    return "late-response:" if any(conforms(a, o)[0] is None for a in alts) else ""
 
 
 def split_at(data, cuts):
@@ -999,7 +1032,7 @@ def stream_case(draw):
         elif k == 2 and len(pieces) > 2:
             del pieces[draw(_int(1, len(pieces) - 1))]
     pieces = [[k, b] for k, b in pieces if b]
-    return dict(pieces=pieces, cuts=draw(cut_specs(pieces)))
+    return dict(pieces=pieces, cuts=draw(cut_specs(pieces)), mode=_pick(draw, ["sync", "sync", "after", "end", "end"]))
 
 
 @st.composite
@@ -1074,7 +1107,7 @@ def run(ctx):
     if ctx.thorough:
         ctx.shards(_shard, list(range(16)))
         return
-    hyp_run(ctx, stream_case(), run_case, 4500, label="streams")
+    hyp_run(ctx, stream_case(), run_case, 3800, label="streams")
 
 
 def _shard(sub, i):
